@@ -571,9 +571,23 @@ class FnAnalysis:
             while isinstance(v_, tuple) and v_ and v_[0] == "mut":
                 v_ = v_[1]
             fixed = isinstance(v_, tuple) and v_ and v_[0] == "arr" and not pat.get("rest") and len(v_[1]) == len(pat["pats"])
+            nb = pat.get("nb", len(pat["pats"]))
+            has_rest = bool(pat.get("rest"))
+            n_after = len(pat["pats"]) - nb - (1 if has_rest else 0)
             for i, p in enumerate(pat["pats"]):
-                # `[a, b, c]` against a visible array literal of the same length binds the elements themselves
-                self.bind(st, p, v_[1][i] if fixed else ("idx", val, C(i)), src)
+                if fixed:
+                    # `[a, b, c]` against a visible array literal of the same length binds the elements themselves
+                    self.bind(st, p, v_[1][i], src)
+                elif i < nb or not has_rest:
+                    self.bind(st, p, ("idx", val, C(i)), src)
+                elif i == nb:
+                    continue        # the `..` rest
+                else:
+                    r = len(pat["pats"]) - 1 - i      # distance from the end: 0 = last element
+                    if r == 0:
+                        self.bind(st, p, ("call", "core::slice::<impl [T]>::last", (val,), None), src)
+                    else:
+                        self.bind(st, p, ("idx", val, ("bin", "-", ("call", "len", (val,), None), C(r + 1))), src)
 
     def alias_target(self, src):
         e = src
@@ -1170,13 +1184,21 @@ class FnAnalysis:
             # a visible constructor value selects its arm
             verdicts = [_ctor_match(v, a["pat"]) if a["guard"] is None else None for _, a in arms]
             if True in verdicts:
-                arms = [arms[verdicts.index(True)]]
+                # the first arm that certainly matches ends the search; earlier arms that may match stay feasible
+                t_ = verdicts.index(True)
+                arms = [x for x, vd in list(zip(arms, verdicts))[:t_] if vd is not False] + [arms[t_]]
             else:
                 arms = [x for x, vd in zip(arms, verdicts) if vd is not False]
             n = len(arms)
             fell = []      # states whose pattern matched an earlier arm but whose guard was false: they try the later arms, knowing that
+            always = False  # an earlier arm's pattern matches everything (`x if cond => ..`): later arms are reached only through its failed guard
             for j, (i, arm) in enumerate(arms):
-                starts = [(s.fork() if j < n - 1 else s, False)] + [(sf.fork(), True) for sf in fell]
+                starts = ([] if always else [(s.fork() if j < n - 1 else s, False)]) + [(sf.fork(), True) for sf in fell]
+                pk = arm["pat"]
+                while pk is not None and pk.get("k") in ("RefPat",):
+                    pk = pk.get("pat")
+                if pk is not None and (pk.get("k") == "Wild" or (pk.get("k") == "Bind" and pk.get("sub") is None)):
+                    always = True
                 fell_next = []
                 for sa, was_fell in starts:
                     # fell=False: no earlier arm's pattern matched (guards never ran); fell=True: an earlier pattern matched and its guard was false
@@ -1416,6 +1438,21 @@ class FnAnalysis:
                 outs.append((s, ("unit",)))
                 continue
             fn = e.get("fn") or ("<method:%s>" % e["name"])
+            if fn.startswith("std::collections::hash::map::Entry::") and fn.endswith("::or_insert_with") and len(vals) == 2 and isinstance(vals[1], tuple) and vals[1] and vals[1][0] == "clos":
+                # `map.entry(k).or_insert_with(f)`: occupied → the stored value; vacant → f() is inserted and handed back
+                node = getattr(self, "clos_nodes", {}).get(vals[1][1])
+                if node is not None and not node["params"]:
+                    s.events = [x for x in s.events if x.clos != vals[1][1]]
+                    s_hit = s.fork()
+                    self.ev(s_hit, "decide", e, how="entry", outcome=True, cond=vals[0], cond_node=e["recv"])
+                    outs.append((s_hit, ("call", "std::collections::hash::map::OccupiedEntry::<'a, K, V, A>::into_mut", (vals[0],), None)))
+                    self.ev(s, "decide", e, how="entry", outcome=False, cond=vals[0], cond_node=e["recv"])
+                    for s3, v3 in self.eval(node["body"], s):
+                        if s3.ctrl is None:
+                            self.ev(s3, "call", e, fn="std::collections::hash::map::VacantEntry::<'a, K, V, A>::insert", resolved=None, args=(vals[0], v3), arg_nodes=[e["recv"], e["args"][0]],
+                                    recv=e["recv"], ret=v3, effects=(), tys=["", ""], targs=None, pos_before={}, pos_after={}, argkeys=[frozenset(), frozenset()], direct=None)
+                            outs.append((s3, v3))
+                    continue
             if fn == "core::iter::traits::collect::Extend::extend" and len(vals) == 2 and "hash::map::HashMap" in (e.get("resolved") or "") and "Extend<(K, V)>" in (e.get("resolved") or ""):
                 # `map.extend(iter)` is `for (k, v) in iter { map.insert(k, v); }`
                 lid = e.get("id")
@@ -1554,6 +1591,16 @@ class FnAnalysis:
                 self.ev(st, "call", e, fn=fn, args=tuple(vals), arg_nodes=arg_nodes, recv=recv_node, ret=old_v, effects=(), uid=None, tys=tys,
                         argkeys=[frozenset() for _ in arg_nodes], pos_before={}, pos_after={}, direct=None, targs=e.get("targs"), resolved=e.get("resolved"))
                 return old_v
+        if fn.startswith("std::collections::hash::map::OccupiedEntry::") and fn.endswith(("::remove", "::remove_entry")) and len(vals) == 1:
+            # removing through the occupied entry of `map.entry(k)` is `map.remove(&k)` (the value is known to exist)
+            ent = [t for t in subterms(vals[0]) if isinstance(t, tuple) and t and t[0] == "call" and t[1] == "std::collections::hash::map::HashMap::<K, V, S, A>::entry" and len(t[2]) == 2]
+            if ent:
+                m_, k_ = ent[0][2]
+                hm_remove = "std::collections::hash::map::HashMap::<K, V, S, A>::remove"
+                ret_ = ("call", hm_remove, (m_, k_), self.fresh())
+                self.ev(st, "call", e, fn=hm_remove, args=(m_, k_), arg_nodes=arg_nodes + arg_nodes, recv=recv_node, ret=ret_, effects=(), uid=None, tys=tys + tys,
+                        argkeys=[frozenset(), frozenset()], pos_before={}, pos_after={}, direct=None, targs=e.get("targs"), resolved=e.get("resolved"), via_entry=True)
+                return ret_
         if fn.startswith("std::collections::hash::map::VacantEntry::") and fn.endswith("::insert") and len(vals) == 2:
             # inserting through a vacant entry hands back (a reference to) the value just stored
             self.ev(st, "call", e, fn=fn, args=tuple(vals), arg_nodes=arg_nodes, recv=recv_node, ret=vals[1], effects=(), uid=None, tys=tys,
@@ -1724,7 +1771,16 @@ def _ctor_match(v, pat):
         vc = v[1]
         known = ("core::option::Option::Some", "core::option::Option::None", "core::result::Result::Ok", "core::result::Result::Err")
         if vc in known and pc in known:
-            return vc == pc
+            if vc != pc:
+                return False
+            # same constructor: a certain match only if the sub-patterns cannot fail (`Some(x)`, `Some(_)`); `Some(Object(m))` may still not match
+            subs = pat.get("pats") or [f.get("pat") for f in (pat.get("fields") or [])]
+            for q in subs:
+                while q is not None and q.get("k") in ("RefPat",):
+                    q = q.get("pat")
+                if q is not None and not (q.get("k") == "Wild" or (q.get("k") == "Bind" and q.get("sub") is None)):
+                    return None
+            return True
     return None
 
 
